@@ -9,6 +9,7 @@ import (
 	"fmt"
 	"hash"
 	"io"
+	"math"
 	"net"
 	"strconv"
 	"strings"
@@ -368,11 +369,19 @@ func readMessage(r io.Reader, header *wire.MessageHeader, msg wire.Message) erro
 		rc = r
 	}
 
-	// Read payload.
-	payload := make([]byte, header.Length)
-	if _, err := io.ReadFull(rc, payload); err != nil {
-		return errors.Wrap(err, "read")
+	// Read payload. The length is declared by the other node, so it can't be trusted to allocate the
+	// buffer up front. Let the buffer grow with the data that is actually received.
+	if header.Length > math.MaxInt64 {
+		return errors.Wrap(ErrMessageTooLarge, fmt.Sprintf("%s: %d b", header.CommandString(),
+			header.Length))
 	}
+	payloadBuf := &bytes.Buffer{}
+	if n, err := io.Copy(payloadBuf, io.LimitReader(rc, int64(header.Length))); err != nil {
+		return errors.Wrap(err, "read")
+	} else if uint64(n) != header.Length {
+		return errors.Wrap(io.ErrUnexpectedEOF, "read")
+	}
+	payload := payloadBuf.Bytes()
 
 	// Extended messages don't use a checksum.
 	if checkSum != nil {
